@@ -67,7 +67,11 @@ fn phdr(p_type: u32, p_offset: u64, p_vaddr: u64) -> Vec<u8> {
 
 /// craft linker data in a two-page pattern region that is followed by a PROT_NONE page
 pub fn case_dso(id: &str, r: &mut Rng) -> String {
-    let scen = *r.pick(&["good", "cyclic", "selfloop", "hugephnum", "mulphnum", "vaddr-underflow", "dyn-overflow", "dyn-short", "rdebug-unreadable", "linkmap-short", "name-unreadable", "no-null", "bigphnum", "rho", "tail-selfloop", "rho-long", "no-null-odd"]);
+    // (the scenarios are taken in turn, so that every one of them occurs in every run: the case number is the id's tail)
+    let turn = id.rsplit('-').next().and_then(|x| x.parse::<usize>().ok());
+    let scens = ["good", "cyclic", "selfloop", "hugephnum", "mulphnum", "vaddr-underflow", "dyn-overflow", "dyn-short", "rdebug-unreadable", "linkmap-short", "name-unreadable", "no-null", "bigphnum", "rho", "tail-selfloop", "rho-long", "no-null-odd"];
+    let picked = *r.pick(&scens);
+    let scen = match turn { Some(k) => scens[k % scens.len()], None => picked };
     // (bigphnum: a program-header count beyond what an ELF header can announce, over a region large enough for all of
     // those headers to be read)
     let t = match Target::spawn(&["-r".to_string(), if scen == "bigphnum" { "4194304:r".to_string() } else { "8192:n".to_string() }]) {
